@@ -52,6 +52,14 @@ CHECKS = {
    tech="TLC model checking of Runtime.tla (all interleavings of threads sharing an immutable program, cleared-runtime histories, with non-vacuity deviations) + conformance: the real Program compiled twice, run on fresh / cleared runtimes and from 8 threads, outcomes compared and sequential traces validated by TraceCore",
    text="Design level: Runtime.tla lets 3 threads evaluate one immutable program step by step in every interleaving, each processing 2 events with Runtime::clear in between; TLC checks exhaustively that every finished run's result and final event are the function of its event alone (Deterministic) and the frame condition (a step of t touches only t's state); two named deviations (a shared scratch cell; reuse without clear) are checked to violate it, so the invariant is not vacuous. Implementation level: every program (TLC-generated from the C08/C09/C13 grammars, plus every stdlib example that calls no exempt function) is compiled twice (reports must be equal), run per event on a fresh runtime (baseline; for generated programs the traces are validated by TraceCore), on one runtime cleared between events in two orders, and by 8 threads sharing the one Program with rotated event orders and yields; TLC requires every observed outcome (result, final event, metadata, variables) to equal the baseline.",
    note="trusted: the harness' thread driver; real OS schedules are sampled (8 threads x reps x events per program), not enumerated - the exhaustive part is the model's; exempt functions listed in the evidence"),
+ "C18": dict(engine="B", cat="model_checking", design="6/C18",
+   tech="TLC-defined universes of values/paths; real Value/TargetValue get/insert/remove results validated by TLC against laws L1-L5 and the transcribed reference operations of Values.tla",
+   text="GenValues.tla defines the bounded universes (values of depth <= 2 over fields {a,b}, arrays of length 0-3, scalars; paths of <= 3 segments over fields, a quoted field, positive, negative and out-of-range indices; inserted scalars/containers). For every tuple the harness calls the real Value::get/get_mut/insert/remove (both prune flags) and TargetValue::target_get/insert/remove and records the results; TLC evaluates on them: get-after-insert, the insertion frame law over all independent locations (computed with the spec's own Get), remove returns what get returned, nothing is found or removed through a non-container, insert returns the previous value, get_mut and the Target wrappers agree - and reports where Values.tla's transcribed Get/Insert/Remove differ from the code (no divergence on the pinned tree).",
+   note="trusted: the harness' value/path (de)serialisation; Independent() excludes by design the locations an insertion legitimately changes (field-vs-index replacement, front padding shifts, growth under negative indices)"),
+ "C19": dict(engine="B", cat="model_checking", design="6/C19",
+   tech="TLC-generated kinds with member values chosen by the specification's independent InKind; real Kind at_path/get/insert/remove/union/merge/is_superset results checked by TLC with InKind against the real Value operations",
+   text="GenKinds.tla enumerates 682 kinds (primitive sets, objects with known fields and unknown in {none, exact integer, exact bytes|null, any, json}, arrays with known indices incl. holes and optional elements, nesting, collection-or-primitive) and computes with the TLA+ membership predicate which of 197 values each contains. For sampled (kind, member, path, inserted kind+member, merge partner, compact) cases the harness builds the real Kind through public builders, applies the real Kind operations and the real Value operations, and TLC checks soundness S1-S5 (read, insert, remove incl. the removed value's kind, union/merge, subtype test vs membership) on the real results, naming the circumstances (negative index, optional/sparse known index, through an unknown member, padding, compaction, collection-or-primitive, optional field on the merge's right side) of every violation.",
+   note="trusted: InKind's reading of what a kind means (written from the documentation of kinds, independent of Kind's code); the harness' kind builder/serialiser (cases whose kind does not survive the builder round trip are not judged)"),
 }
 
 NA = {
@@ -103,6 +111,9 @@ def main():
             {"name": "A", "path": "/verif/spec/VrlCore.tla /verif/spec/TraceCore.tla /verif/spec/GenCore.tla /verif/lib/engine_a.py /verif/harness/src/core.rs",
              "serves_properties": [p for p in ids if CHECKS.get(p, {}).get("engine") == "A"],
              "kind_free_text": "language core: TLC generates programs from per-property focus grammars, the Rust harness replays them through the real compiler/interpreter with trace hooks, TLC validates every recorded event against the abstract machine"},
+            {"name": "B", "path": "/verif/spec/Values.tla /verif/spec/Kinds.tla /verif/spec/GenValues.tla /verif/spec/GenKinds.tla /verif/spec/TraceValues.tla /verif/spec/TraceKinds.tla /verif/lib/engine_b.py /verif/harness/src/algebra.rs",
+             "serves_properties": [p for p in ids if CHECKS.get(p, {}).get("engine") == "B"],
+             "kind_free_text": "values, kinds and paths: universes defined in TLA+, real operations applied by the harness, laws / soundness predicates evaluated by TLC on the real results"},
         ],
         "checks": checks,
         "notes": "exit codes: 0 held (KNOWN-FINDING lines for listed findings), 1 VIOLATION, 2 tool trouble. known findings: /verif/known_findings.json",
